@@ -127,8 +127,9 @@ def law_stateless(chk, lp, rule, file):
             bad = bad or (k[0], first[k], again)
     chk.ob(rule, "tokenise run twice", bad is None,
            (f"{bad[0]!r} was lexed as {bad[1]} the first time and as {bad[2]} "
-            "after other texts had been lexed: the lexer keeps state between "
-            "calls") if bad else "", file,
+            "when lexed again (after other texts, or alone in a fresh copy "
+            "of the lexer module): the lexer keeps state between calls")
+           if bad else "", file,
            witness=repr(bad[0]) if bad else None,
            sample={"probes repeated": len(keys)})
     return bad is None
